@@ -59,7 +59,8 @@ func (s *StepCompileMeta) Process(i input.Input, d *output.Output) error {
 func (s *StepCompileMeta) handleImports(imports map[string]string) error {
 	var errs []error
 	maps.Iterate(imports, func(alias string, import_ string) {
-		errs = append(errs, s.aliasRegisterer.RegisterPrefixAlias(alias, import_))
+		// the path may be quoted like any other import in the configuration, the quotes are not part of it
+		errs = append(errs, s.aliasRegisterer.RegisterPrefixAlias(alias, syntax.SanitizeImport(import_)))
 	})
 	return grouperror.Prefix("imports: ", errs...)
 }
